@@ -1,7 +1,11 @@
 (* Properties_C13.v — C13: grid index mapping puts each in-range point in the in-bounds cell containing it.
-   Per axis; r = resolution, [lo, hi] = extent; all statements are about the model instantiated at the reals. *)
-From Coq Require Import Reals ZArith Lra.
-From Romea Require Import Num NumR GridMapModel GridMapProofs.
+   Per axis; r = resolution, [lo, hi] = extent.  First part: the model instantiated at the reals (exact arithmetic).
+   Second part (names ending in _binary64 / _binary32): the SAME model instantiated at the rounded dictionaries
+   B64Ops / B32Ops of GridMapFloat.v, i.e. IEEE-754 binary64 / binary32 with round-to-nearest-even after every
+   C++ operation. *)
+From Coq Require Import Reals ZArith List Lra.
+From Flocq Require Import Core.
+From Romea Require Import Num NumR GridMapModel GridMapProofs GridMapFloat.
 Local Open Scope R_scope.
 
 (* every in-range point is at least half a cell away from the values 0 and n where truncation would leave the
@@ -43,3 +47,201 @@ Proof.
   rewrite (n_eq 1 (-1) 1). replace (1 / 1) with (IZR 1) by (simpl; lra). replace (-1 / 1) with (IZR (-1)) by (simpl; lra).
   rewrite Flocq.Core.Raux.Zceil_IZR, Flocq.Core.Raux.Zfloor_IZR. reflexivity.
 Qed.
+
+(* ====================================================================================================
+   Floating point.  [FlOps prec emin] (GridMapFloat.v) is a numeric dictionary over R whose +, -, *, / and
+   integer->float are the real operation followed by ONE rounding [round radix2 (FLT_exp emin prec) ZnearestE] (Flocq);
+   floor, ceil, truncation, negation are exact on floating-point numbers.
+       B64Ops = FlOps 53 (-1074), rnd64 its rounding;   B32Ops = FlOps 24 (-149), rnd32 its rounding.
+   [gm_origin B64Ops], [gm_ncells B64Ops], [gm_index B64Ops], [gm_centre B64Ops] are therefore
+   GridIndexMapping.cpp:38-65,94-98 with Scalar = double (B32Ops: Scalar = float), one rounding per operation in the
+   C++ evaluation order (origin_unf, ncells_unf, index_unf0, centre_unf0 show them unfolded).  The dictionaries used
+   for EXECUTION (ocaml/numf.ml: native OCaml doubles; binary32 = binary64 result rounded once more, which is
+   innocuous for + - * /) compute the same functions on finite numbers as long as nothing overflows; the
+   no_overflow theorems prove that nothing does on the domains.  That identification (hardware arithmetic = Flocq's
+   rounding; no x87 excess precision, no FMA contraction) is trusted, not proved; FlOps is not extracted.
+
+   binary64 domain [gmf_domain r lo hi]:    2^-900 <= r <= 2^900,  |lo| <= 2^40 r,  |hi| <= 2^40 r
+   binary32 domain [gmf_domain32 r lo hi]:  2^-100 <= r <= 2^100,  |lo| <= 2^20 r,  |hi| <= 2^20 r
+   (both bounds at most 2^40, resp. 2^20, cells away from zero).  The boxes 2^-20 <= r <= 2^20, |lo|,|hi| <= 2^20
+   (resp. 2^-10 <= r <= 2^10, |lo|,|hi| <= 2^10) lie inside and contain the envelope of the property
+   (r in [1e-3,10], bounds in [-1e3,1e3]).
+   The inputs are arbitrary reals of the domain; in particular every binary64 (binary32) r, lo, hi, p of the domain
+   (representability of the inputs is not needed by the proofs, so it is not assumed).
+   ==================================================================================================== *)
+Theorem C13_domain_binary64 : forall r lo hi, gmf_domain r lo hi <->
+  (bpow radix2 (-900) <= r <= bpow radix2 900 /\ Rabs lo <= bpow radix2 40 * r /\ Rabs hi <= bpow radix2 40 * r).
+Proof. intros r lo hi. apply iff_refl. Qed.
+
+Theorem C13_domain_box_binary64 : forall r lo hi,
+  bpow radix2 (-20) <= r <= bpow radix2 20 -> Rabs lo <= bpow radix2 20 -> Rabs hi <= bpow radix2 20 ->
+  gmf_domain r lo hi.
+Proof. exact gmf_domain_box. Qed.
+
+(* every intermediate result of the constructor, of computeCellIndexes(p), of centre table entry k and of
+   computeCellIndexes(centre k) is below 2^1000 in magnitude before rounding: no overflow *)
+Theorem C13_no_overflow_binary64 : forall r lo hi p k, gmf_domain r lo hi -> lo <= p <= hi ->
+  (0 <= k < gm_ncells B64Ops r lo hi)%Z ->
+  let org := gm_origin B64Ops r lo in
+  let F := Zfloor (rnd64 (lo / r)) in let C := Zceil (rnd64 (hi / r)) in
+  let m := rnd64 ((IZR k + 1 / 2) * r) in let c := gm_centre B64Ops r org k in
+  Forall (fun x => Rabs x <= bpow radix2 1000)
+    (lo / r :: hi / r :: IZR F - 1 / 2 :: r * (IZR F - 1 / 2) :: IZR C - IZR F :: IZR (C - F) + 1 ::
+     p - org :: rnd64 (p - org) / r ::
+     IZR k + 1 / 2 :: (IZR k + 1 / 2) * r :: org + m :: c - org :: rnd64 (c - org) / r :: nil).
+Proof. intros r lo hi p k D. exact (no_overflow_b64 r lo hi D p k). Qed.
+Print Assumptions C13_no_overflow_binary64.
+
+(* the cell count is computed without any rounding error: ceil(rnd(hi/r)) - floor(rnd(lo/r)) + 1 *)
+Theorem C13_ncells_exact_binary64 : forall r lo hi, gmf_domain r lo hi ->
+  gm_ncells B64Ops r lo hi = (Zceil (rnd64 (hi / r)) - Zfloor (rnd64 (lo / r)) + 1)%Z.
+Proof. exact ncells_b64. Qed.
+Print Assumptions C13_ncells_exact_binary64.
+
+Theorem C13_ncells_positive_binary64 : forall r lo hi, gmf_domain r lo hi -> lo <= hi ->
+  (1 <= gm_ncells B64Ops r lo hi)%Z.
+Proof. exact ncells_positive_b64. Qed.
+Print Assumptions C13_ncells_positive_binary64.
+
+(* the floating-point index of every point of the extent is in bounds *)
+Theorem C13_index_in_bounds_binary64 : forall r lo hi p, gmf_domain r lo hi -> lo <= p <= hi ->
+  (0 <= gm_index B64Ops r (gm_origin B64Ops r lo) p < gm_ncells B64Ops r lo hi)%Z.
+Proof. intros r lo hi p D. exact (index_in_bounds_b64 r lo hi D p). Qed.
+Print Assumptions C13_index_in_bounds_binary64.
+
+(* why: the rounded quotient that gets truncated keeps a quarter-cell margin (half a cell in exact arithmetic) *)
+Theorem C13_quarter_cell_margin_binary64 : forall r lo hi p, gmf_domain r lo hi -> lo <= p <= hi ->
+  1 / 4 <= rnd64 (rnd64 (p - gm_origin B64Ops r lo) / r) <= IZR (gm_ncells B64Ops r lo hi) - 1 / 4.
+Proof. intros r lo hi p D. exact (quarter_margin_b64 r lo hi D p). Qed.
+Print Assumptions C13_quarter_cell_margin_binary64.
+
+(* the point is within half a resolution of the floating-point centre of its cell, up to the rounding slack
+   gmf_tol = 2^-49 * max(|lo|,|hi|,r) + 2^-49 * r  (exactly the tolerance the oracle of checks/C13.py allows) *)
+Theorem C13_point_near_centre_binary64 : forall r lo hi p, gmf_domain r lo hi -> lo <= p <= hi ->
+  let org := gm_origin B64Ops r lo in
+  Rabs (p - gm_centre B64Ops r org (gm_index B64Ops r org p))
+    <= r / 2 + (bpow radix2 (-49) * Rmax (Rmax (Rabs lo) (Rabs hi)) r + bpow radix2 (-49) * r).
+Proof. intros r lo hi p D. exact (point_near_centre_b64 r lo hi D p). Qed.
+Print Assumptions C13_point_near_centre_binary64.
+
+(* the same with a slack relative to the cell size *)
+Theorem C13_point_near_centre_rel_binary64 : forall r lo hi p, gmf_domain r lo hi -> lo <= p <= hi ->
+  let org := gm_origin B64Ops r lo in
+  Rabs (p - gm_centre B64Ops r org (gm_index B64Ops r org p)) <= r / 2 + bpow radix2 (-9) * r.
+Proof. intros r lo hi p D. exact (point_near_centre_rel_b64 r lo hi D p). Qed.
+Print Assumptions C13_point_near_centre_rel_binary64.
+
+(* centre -> index -> centre is the identity in floating point, for every cell of the grid *)
+Theorem C13_centre_maps_to_itself_binary64 : forall r lo hi k, gmf_domain r lo hi ->
+  (0 <= k < gm_ncells B64Ops r lo hi)%Z ->
+  let org := gm_origin B64Ops r lo in gm_index B64Ops r org (gm_centre B64Ops r org k) = k.
+Proof. intros r lo hi k D. exact (centre_index_b64 r lo hi D k). Qed.
+Print Assumptions C13_centre_maps_to_itself_binary64.
+
+(* consecutive floating-point centres are r apart up to the same slack *)
+Theorem C13_centres_spaced_binary64 : forall r lo hi k, gmf_domain r lo hi ->
+  (0 <= k)%Z -> (k + 1 < gm_ncells B64Ops r lo hi)%Z ->
+  let org := gm_origin B64Ops r lo in
+  Rabs (gm_centre B64Ops r org (k + 1) - gm_centre B64Ops r org k - r) <= gmf_tol r lo hi.
+Proof. intros r lo hi k D. exact (centres_spaced_b64 r lo hi D k). Qed.
+Print Assumptions C13_centres_spaced_binary64.
+
+(* the first and last floating-point cells cover the bounds, without any slack *)
+Theorem C13_first_last_cover_bounds_binary64 : forall r lo hi, gmf_domain r lo hi -> lo <= hi ->
+  let org := gm_origin B64Ops r lo in
+  gm_centre B64Ops r org 0 - r / 2 <= lo /\ hi <= gm_centre B64Ops r org (gm_ncells B64Ops r lo hi - 1) + r / 2.
+Proof. exact cover_b64. Qed.
+Print Assumptions C13_first_last_cover_bounds_binary64.
+
+(* non-vacuity: r = 1/2, extent [-10, 10], p = 3 are binary64 numbers of the domain; the rounded model gives
+   origin -10.25, 41 cells, p in cell 26 whose centre is 3 *)
+Example C13_binary64_ex_inputs : b64 (1 / 2) /\ b64 (-10) /\ b64 10 /\ b64 3.
+Proof. exact ex_inputs_b64. Qed.
+Example C13_binary64_ex_domain : gmf_domain (1 / 2) (-10) 10 /\ -10 <= 3 <= 10.
+Proof. split; [exact ex_domain|lra]. Qed.
+Example C13_binary64_ex_values :
+  gm_origin B64Ops (1 / 2) (-10) = -41 / 4 /\ gm_ncells B64Ops (1 / 2) (-10) 10 = 41%Z /\
+  gm_index B64Ops (1 / 2) (gm_origin B64Ops (1 / 2) (-10)) 3 = 26%Z /\
+  gm_centre B64Ops (1 / 2) (gm_origin B64Ops (1 / 2) (-10)) 26 = 3.
+Proof. exact ex_values_b64. Qed.
+
+(* ---------------------------------------- binary32 (Scalar = float) ---------------------------------------- *)
+Theorem C13_domain_binary32 : forall r lo hi, gmf_domain32 r lo hi <->
+  (bpow radix2 (-100) <= r <= bpow radix2 100 /\ Rabs lo <= bpow radix2 20 * r /\ Rabs hi <= bpow radix2 20 * r).
+Proof. intros r lo hi. apply iff_refl. Qed.
+
+Theorem C13_domain_box_binary32 : forall r lo hi,
+  bpow radix2 (-10) <= r <= bpow radix2 10 -> Rabs lo <= bpow radix2 10 -> Rabs hi <= bpow radix2 10 ->
+  gmf_domain32 r lo hi.
+Proof. exact gmf_domain32_box. Qed.
+
+(* below 2^122; the largest finite binary32 number is just under 2^128 *)
+Theorem C13_no_overflow_binary32 : forall r lo hi p k, gmf_domain32 r lo hi -> lo <= p <= hi ->
+  (0 <= k < gm_ncells B32Ops r lo hi)%Z ->
+  let org := gm_origin B32Ops r lo in
+  let F := Zfloor (rnd32 (lo / r)) in let C := Zceil (rnd32 (hi / r)) in
+  let m := rnd32 ((IZR k + 1 / 2) * r) in let c := gm_centre B32Ops r org k in
+  Forall (fun x => Rabs x <= bpow radix2 122)
+    (lo / r :: hi / r :: IZR F - 1 / 2 :: r * (IZR F - 1 / 2) :: IZR C - IZR F :: IZR (C - F) + 1 ::
+     p - org :: rnd32 (p - org) / r ::
+     IZR k + 1 / 2 :: (IZR k + 1 / 2) * r :: org + m :: c - org :: rnd32 (c - org) / r :: nil).
+Proof. intros r lo hi p k D. exact (no_overflow_b32 r lo hi D p k). Qed.
+Print Assumptions C13_no_overflow_binary32.
+
+Theorem C13_ncells_exact_binary32 : forall r lo hi, gmf_domain32 r lo hi ->
+  gm_ncells B32Ops r lo hi = (Zceil (rnd32 (hi / r)) - Zfloor (rnd32 (lo / r)) + 1)%Z.
+Proof. exact ncells_b32. Qed.
+Print Assumptions C13_ncells_exact_binary32.
+
+Theorem C13_ncells_positive_binary32 : forall r lo hi, gmf_domain32 r lo hi -> lo <= hi ->
+  (1 <= gm_ncells B32Ops r lo hi)%Z.
+Proof. exact ncells_positive_b32. Qed.
+Print Assumptions C13_ncells_positive_binary32.
+
+Theorem C13_index_in_bounds_binary32 : forall r lo hi p, gmf_domain32 r lo hi -> lo <= p <= hi ->
+  (0 <= gm_index B32Ops r (gm_origin B32Ops r lo) p < gm_ncells B32Ops r lo hi)%Z.
+Proof. intros r lo hi p D. exact (index_in_bounds_b32 r lo hi D p). Qed.
+Print Assumptions C13_index_in_bounds_binary32.
+
+(* in binary32 at 2^20 cells from zero the half-cell margin shrinks to a sixteenth of a cell, but survives *)
+Theorem C13_sixteenth_cell_margin_binary32 : forall r lo hi p, gmf_domain32 r lo hi -> lo <= p <= hi ->
+  1 / 16 <= rnd32 (rnd32 (p - gm_origin B32Ops r lo) / r) <= IZR (gm_ncells B32Ops r lo hi) - 1 / 16.
+Proof. intros r lo hi p D. exact (margin_b32 r lo hi D p). Qed.
+Print Assumptions C13_sixteenth_cell_margin_binary32.
+
+(* slack 2^-20 * max(|lo|,|hi|,r) + 2^-20 * r: the oracle's tolerance for float (8 eps with eps = 2^-23) *)
+Theorem C13_point_near_centre_binary32 : forall r lo hi p, gmf_domain32 r lo hi -> lo <= p <= hi ->
+  let org := gm_origin B32Ops r lo in
+  Rabs (p - gm_centre B32Ops r org (gm_index B32Ops r org p))
+    <= r / 2 + (bpow radix2 (-20) * Rmax (Rmax (Rabs lo) (Rabs hi)) r + bpow radix2 (-20) * r).
+Proof. intros r lo hi p D. exact (point_near_centre_b32 r lo hi D p). Qed.
+Print Assumptions C13_point_near_centre_binary32.
+
+Theorem C13_centre_maps_to_itself_binary32 : forall r lo hi k, gmf_domain32 r lo hi ->
+  (0 <= k < gm_ncells B32Ops r lo hi)%Z ->
+  let org := gm_origin B32Ops r lo in gm_index B32Ops r org (gm_centre B32Ops r org k) = k.
+Proof. intros r lo hi k D. exact (centre_index_b32 r lo hi D k). Qed.
+Print Assumptions C13_centre_maps_to_itself_binary32.
+
+Theorem C13_centres_spaced_binary32 : forall r lo hi k, gmf_domain32 r lo hi ->
+  (0 <= k)%Z -> (k + 1 < gm_ncells B32Ops r lo hi)%Z ->
+  let org := gm_origin B32Ops r lo in
+  Rabs (gm_centre B32Ops r org (k + 1) - gm_centre B32Ops r org k - r) <= gmf_tol32 r lo hi.
+Proof. intros r lo hi k D. exact (centres_spaced_b32 r lo hi D k). Qed.
+Print Assumptions C13_centres_spaced_binary32.
+
+Theorem C13_first_last_cover_bounds_binary32 : forall r lo hi, gmf_domain32 r lo hi -> lo <= hi ->
+  let org := gm_origin B32Ops r lo in
+  gm_centre B32Ops r org 0 - r / 2 <= lo /\ hi <= gm_centre B32Ops r org (gm_ncells B32Ops r lo hi - 1) + r / 2.
+Proof. exact cover_b32. Qed.
+Print Assumptions C13_first_last_cover_bounds_binary32.
+
+Example C13_binary32_ex_inputs : b32 (1 / 2) /\ b32 (-10) /\ b32 10 /\ b32 3.
+Proof. exact ex_inputs_b32. Qed.
+Example C13_binary32_ex_domain : gmf_domain32 (1 / 2) (-10) 10 /\ -10 <= 3 <= 10.
+Proof. split; [exact ex_domain32|lra]. Qed.
+Example C13_binary32_ex_values :
+  gm_origin B32Ops (1 / 2) (-10) = -41 / 4 /\ gm_ncells B32Ops (1 / 2) (-10) 10 = 41%Z /\
+  gm_index B32Ops (1 / 2) (gm_origin B32Ops (1 / 2) (-10)) 3 = 26%Z /\
+  gm_centre B32Ops (1 / 2) (gm_origin B32Ops (1 / 2) (-10)) 26 = 3.
+Proof. exact ex_values_b32. Qed.
